@@ -17,15 +17,22 @@ RULE = ("PWLCalibrationConstraints with Python-list lengths (positive control; z
         "x clamp_min x clamp_max (+ is_cyclic for monotonicity=convexity=0), each cell repeated with random 2-8 keypoints "
         "(dyadic positive spacing), 1-3 units, num_projection_iterations in {0,1,2,8,50}, entry point in {constraint object, "
         "layer.build() wiring + keypoints_outputs(), project_all_constraints}; kernels dyadic / ints with ties / wide doubles / "
-        "huge / bias far outside the bounds / heights of the wrong sign / feasible by construction / projected twice. "
+        "huge / bias far outside the bounds / heights of the wrong sign / feasible by construction / projected twice; "
+        "layer entry point: the imputed missing output is LEARNED (NaiveBoundsConstraints applied to 3*bias: must lie in the "
+        "bounds) or a FIXED missing_output_value inside / outside / on the bounds (the layer is called at the missing "
+        "input: the output must be exactly the configured value; model op pwl.layer). "
         "Non-trivial = the projection moved the kernel or the kernel was feasible; distinct = (class, kind, iters, moved, hash).")
 ASSUMPTIONS = ["float64 kernels; correspondence tolerance 1e-9*scale, oracle tolerance 1e-7*scale",
                "lengths positive (verify_hyperparameters: strictly increasing keypoints) and output_min <= output_max",
                "clamp without monotonicity is rejected by the real code with ValueError when the constraint is applied "
                "(model agrees); that rejection is C16's subject and is not an oracle failure here",
-               "theorems are per unit column over exact rationals; units are independent columns (C09)"]
+               "theorems are per unit column over exact rationals; units are independent columns (C09)",
+               "a FIXED missing_output_value is not constrained (a tf.constant, by design: upstream's tests use values outside "
+               "the output range): the clause checked is 'imputed output == configured value', the bounds clause applies to "
+               "the LEARNED missing output only (theorems missing_output_in_bounds / missing_output_fixed_is_value)"]
 
 ITERS = [0, 1, 2, 8, 50]
+MISSING_INPUT = -7.0    # left of every generated keypoint (they start at 0)
 BCT_NAMES = {0: "NONE", 1: "BOUND", 2: "CLAMPED"}
 
 
@@ -148,7 +155,15 @@ def gen_cases(ctx, reps):
       w_cols = [gen_column(rng, "dyadic" if kind == "twice" else kind, cfg, lengths, nrows - 1) for _ in range(units)]
       w = [[w_cols[u][i] for u in range(units)] for i in range(nrows)]
       via = "layer" if cyclic else rng.choice(["constraint", "constraint", "layer", "lib"])
-      cases.append(dict(cfg=cfg, lengths=lengths, iters=iters, kind=kind, w=w, via=via))
+      mov = None
+      if via == "layer" and rng.random() < 0.5:
+        # a FIXED missing_output_value: inside / on / outside the output range (accepted in every case)
+        lo_b = omin if omin is not None else (omax - 4 if omax is not None else Fraction(-2))
+        hi_b = omax if omax is not None else lo_b + 4
+        mov = rng.choice([lo_b + (hi_b - lo_b) * Fraction(rng.randint(0, 4), 4), lo_b, hi_b,
+                          hi_b + Fraction(rng.randint(1, 40), 4), lo_b - Fraction(rng.randint(1, 40), 4),
+                          Fraction(rng.choice([-1, 1]) * 2 ** 20)])
+      cases.append(dict(cfg=cfg, lengths=lengths, iters=iters, kind=kind, w=w, via=via, mov=mov))
   rng.shuffle(cases)
   return cases
 
@@ -177,7 +192,9 @@ def make_constraint(case):
     layer = pl.PWLCalibration(input_keypoints=kp, units=units, output_min=omin, output_max=omax,
                               clamp_min=cfg["cmin"], clamp_max=cfg["cmax"], monotonicity=cfg["mono"],
                               convexity=cfg["conv"], is_cyclic=cfg["cyclic"],
-                              num_projection_iterations=case["iters"], impute_missing=True, dtype="float64")
+                              num_projection_iterations=case["iters"], impute_missing=True, dtype="float64",
+                              **({} if case.get("mov") is None else dict(
+                                  missing_input_value=MISSING_INPUT, missing_output_value=float(case["mov"]))))
     layer.build(input_shape=(None, units))
     return layer.kernel.constraint, layer
   if case["via"] == "lib":
@@ -215,8 +232,13 @@ def run_real(case):
     if layer is not None:
       layer.kernel.assign(out)
       kpo = layer.keypoints_outputs().numpy()
-      mv = np.array([[float(case["w"][0][u]) * 3.0 for u in range(wf.shape[1])]])
-      missing = (mv, layer.missing_output.constraint(tf.constant(mv)).numpy())
+      if case.get("mov") is None:
+        mv = np.array([[float(case["w"][0][u]) * 3.0 for u in range(wf.shape[1])]])
+        missing = ("learned", mv, layer.missing_output.constraint(tf.constant(mv)).numpy())
+      else:
+        # fixed missing_output_value: the layer evaluated AT the missing input (and at an ordinary one)
+        xq = np.array([[MISSING_INPUT], [0.5]], dtype=np.float64)
+        missing = ("fixed", xq, layer(tf.constant(xq)).numpy())
   except Exception as e:
     out, err = None, classify_exc(e)
   return wf, out, err, kpo, missing
@@ -337,23 +359,57 @@ def check_case(ctx, case, real, replies):
       ctx.fail("bounds", key, rec, kpo, "keypoints_outputs below output_min")
     if cfg["omax"] is not None and np.max(kpo) > float(cfg["omax"]) + tol:
       ctx.fail("bounds", key, rec, kpo, "keypoints_outputs above output_max")
-  if missing is not None:
-    mv, mo = missing
+  if missing is not None and missing[0] == "learned":
+    _, mv, mo = missing
     ctx.count("missing_checked")
+    ctx.count("missing:learned")
     mrep = parse_rats(replies[units].split(" ")[0])
     ctx.compare("naive_bounds", rec, mo.ravel(), mrep, scale, rtol=1e-12)
     if cfg["omin"] is not None and np.min(mo) < float(cfg["omin"]):
       ctx.fail("missing_bounds", key, rec, mo, "imputed missing output below output_min")
     if cfg["omax"] is not None and np.max(mo) > float(cfg["omax"]):
       ctx.fail("missing_bounds", key, rec, mo, "imputed missing output above output_max")
+  elif missing is not None:
+    _, xq, yq = missing
+    mov = float(case["mov"])
+    inside = ((cfg["omin"] is None or float(cfg["omin"]) <= mov) and (cfg["omax"] is None or mov <= float(cfg["omax"])))
+    ctx.count("missing_checked")
+    ctx.count("missing:fixed:%s" % ("inside-bounds" if inside else "outside-bounds"))
+    mkey = dict(key, missing="fixed-" + ("inside" if inside else "outside"))
+    # clause: the imputed output IS the configured value, exactly, for every unit -- inside the bounds or not
+    if yq.shape != (2, units) or not np.all(yq[0] == mov):
+      ctx.fail("missing_fixed_value", mkey, rec, yq[0], "missing input -> %r expected exactly missing_output_value=%r" % (
+          yq[0].tolist(), mov))
+    # the ordinary input next to it is calibrated: within the bounds (projected kernel)
+    if cfg["omin"] is not None and np.min(yq[1]) < float(cfg["omin"]) - tol:
+      ctx.fail("bounds", mkey, rec, yq[1], "calibrated output below output_min")
+    if cfg["omax"] is not None and np.max(yq[1]) > float(cfg["omax"]) + tol:
+      ctx.fail("bounds", mkey, rec, yq[1], "calibrated output above output_max")
+    rep = replies[units]
+    if rep.startswith("ERR") or rep == "bad-op":
+      ctx.disagree("layer.missing_fixed", rec, yq, rep, "model rejects")
+    else:
+      rows = parse_rats2(rep)
+      for b in range(2):
+        ctx.compare("layer.missing_fixed", rec, yq[b], rows[b], max(scale, abs(mov)), rtol=1e-9)
 
 
 def lines_of(case, real):
   wf, out, err, kpo, missing = real
   ls = [model_line(case, wf, u) for u in range(wf.shape[1])]
-  if missing is not None:
+  if missing is not None and missing[0] == "learned":
     ls.append("pwlp.naive %s %s %s" % (opt(case["cfg"]["omin"]), opt(case["cfg"]["omax"]),
-                                       frl(Fraction(float(v)) for v in missing[0].ravel())))
+                                       frl(Fraction(float(v)) for v in missing[1].ravel())))
+  elif missing is not None:
+    # the layer holding the PROJECTED kernel, evaluated by the C05 model at the missing input and at 0.5
+    kp = [Fraction(0)]
+    for l in case["lengths"]:
+      kp.append(kp[-1] + l)
+    units = wf.shape[1]
+    ls.append("pwl.layer %s 0 %d 1 %s %s _ %s %s none" % (
+        frl(kp), case["cfg"]["cyclic"], fr(Fraction(MISSING_INPUT)),
+        frl2([[Fraction(float(v)) for v in out[:, u]] for u in range(units)]),
+        frl([case["mov"]] * units), frl2([[Fraction(float(x))] for x in missing[1][:, 0]])))
   return ls
 
 
@@ -598,6 +654,7 @@ def replay(ctx, failure):
   cfg["omin"] = None if cfg["omin"] is None else Fraction(cfg["omin"])
   cfg["omax"] = None if cfg["omax"] is None else Fraction(cfg["omax"])
   c = dict(cfg=cfg, lengths=[Fraction(v) for v in case["lengths"]], iters=int(case["iters"]), kind="replay",
-           w=[[Fraction(v) for v in row] for row in case["w"]], via=case["via"])
+           w=[[Fraction(v) for v in row] for row in case["w"]], via=case["via"],
+           mov=None if case.get("mov") is None else Fraction(case["mov"]))
   real = run_real(c)
   check_case(ctx, c, real, run_driver(lines_of(c, real)))
